@@ -26,11 +26,13 @@ import (
 
 // stackHandler is the wrapped handler of the composition tests.
 type stackHandler struct {
-	script   M
-	warm     atomic.Bool
-	invoked  atomic.Int64
-	flushOK  atomic.Bool
-	hijackOK atomic.Bool
+	script    M
+	warm      atomic.Bool
+	invoked   atomic.Int64
+	flushOK   atomic.Bool
+	flushLost atomic.Bool // a Flush the handler made did not reach the bottom writer
+	probe     func() bool // (in-memory recorder runs) has the bottom writer been flushed?
+	hijackOK  atomic.Bool
 }
 
 func (h *stackHandler) ServeHTTP(w http.ResponseWriter, req *http.Request) {
@@ -78,7 +80,16 @@ func (h *stackHandler) ServeHTTP(w http.ResponseWriter, req *http.Request) {
 		w.Header()["Date"] = nil
 		w.Header()["x-verbatim-key"] = []string{"42"}
 	}
-	if st := numOr(sc, "status", 200); st != 0 {
+	if boolOr(sc, "flushfirst", false) { // a streaming endpoint announces itself: headers and the implicit 200 are pushed out
+		// before there is any body (the very first call on the writer is Flush)
+		if f, ok := w.(http.Flusher); ok {
+			f.Flush()
+			h.flushOK.Store(true)
+			if h.probe != nil && !h.probe() {
+				h.flushLost.Store(true)
+			}
+		}
+	} else if st := numOr(sc, "status", 200); st != 0 {
 		w.WriteHeader(st)
 	}
 	chunks := list(sc, "chunks")
@@ -88,6 +99,9 @@ func (h *stackHandler) ServeHTTP(w http.ResponseWriter, req *http.Request) {
 			if f, ok := w.(http.Flusher); ok {
 				f.Flush()
 				h.flushOK.Store(true)
+				if h.probe != nil && !h.probe() {
+					h.flushLost.Store(true)
+				}
 			}
 		}
 	}
@@ -218,6 +232,11 @@ func runStack(sc Scenario, tr *Trace, seed int64) {
 				req.Header.Set("X-Req", "1")
 				rec := httptest.NewRecorder()
 				v := respView{}
+				if sh, ok := hh.(*stackHandler); ok {
+					sh.probe = func() bool { return rec.Flushed }
+				} else {
+					h.probe = func() bool { return rec.Flushed }
+				}
 				func() {
 					defer func() {
 						if p := recover(); p != nil {
@@ -305,7 +324,7 @@ func runStack(sc Scenario, tr *Trace, seed int64) {
 		tr.Emit(M{"e": "Stack", "layers": ls, "script": M{"status": numOr(script, "status", 200), "flush": boolOr(script, "flush", false), "hijack": boolOr(script, "hijack", false)},
 			"bare": M{"status": bare.status, "len": len(bare.body)}, "nchunks": len(list(script, "chunks")), "status": got.status, "hdrsEq": hdrsEq, "extraHdrsOK": extraOK,
 			"extra": strings.Join(extra, ","), "bodyEq": bytes.Equal(got.body, bare.body), "invoked": h.invoked.Load(),
-			"flushOK": h.flushOK.Load(), "hijackOK": h.hijackOK.Load() && got.status == 299 && string(got.body) == "hij",
+			"flushOK": h.flushOK.Load(), "flushReached": !h.flushLost.Load(), "flushfirst": boolOr(script, "flushfirst", false), "hijackOK": h.hijackOK.Load() && got.status == 299 && string(got.body) == "hij",
 			"panicked": got.err != "" && got.status == 0, "err": got.err})
 	}
 	_ = bufio.NewReader
